@@ -1,6 +1,7 @@
 import UPVerif.Core.Sexp
 import UPVerif.Drv.C33
 import UPVerif.Drv.Den
+import UPVerif.Drv.C19
 import UPVerif.Drv.C03
 import UPVerif.Drv.C21
 import UPVerif.Drv.C18
@@ -67,6 +68,7 @@ def handlers : List (String × (Sexp → Sexp)) := [
   ("C18", Drv.C18.handle),
   ("C21", Drv.C21.handle),
   ("C03", Drv.C03.handle),
+  ("C19", Drv.C19.handle),
   ("ECHO", Drv.Den.handleEcho),
   ("DEN", Drv.Den.handleDen)
 ]
